@@ -214,3 +214,6 @@ TEXT["C12"]["level"] += (" gzip FILES of several members are read by the specifi
 TEXT["C16"]["level"] += (" The concurrency split itself (concurrency_chunks_and_codec, calc_concurrency_outer_inner, RecommendedConcurrency::new) is modelled and proved to hand down the caller's options unchanged for every target and to stay within the recommendations (Props/C16Conc, 26 theorems); 3200 direct calls per run and end-to-end observables are compared with the model. Two free-running stress lines (chunk keys sharing a directory on a filesystem store) support the search.")
 TEXT["C18"]["level"] += (" One free-running stress line (first accesses to a key of a fresh FilesystemStore instance are concurrent) supports the search where no yield point exists.")
 TEXT["C20"]["level"] += (" Hierarchy listings (children, child_*, Node::open) are swept too: every fault is an error and a successful listing is complete.")
+TEXT["C02"]["level"] += (" The packbits partial decoder is a proved stage of the chain theorem too (Props/C02PackBits: packbitsPD_serves for any rank, region list, component count, bit range and padding; chains transpose*;packbits;bytes-to-bytes*), tied by running the model on the raw stored chunks of real packbits arrays (c02p).")
+TEXT["C20"]["level"] += (" The listings are programs of the operation-level model as well (Props/C20List: a fault at any position is an error for every listing method, and a listing that succeeds under any failing set is complete).")
+TEXT["C15"]["level"] += (" The bounds test of a shard index entry is modelled on 64-bit words as written (checked addition) and proved equal to the unbounded test for all values; an accepted entry denotes a slice inside the value (Props/C15Entry).")
